@@ -118,7 +118,7 @@ def write_replay(root, prop, unit, result, fresh, tu, wd):
                refuted=[list(f) for f in fresh], time=time.strftime("%Y-%m-%dT%H:%M:%SZ", time.gmtime()))
     found = False
     try:
-        if unit.back_end == "BV":
+        if unit.back_end.startswith("BV"):
             found = _replay_bv(rec, unit, result, fresh, tu, wd)
         elif unit.back_end == "RING":
             cx = result.get("counterexample")
